@@ -4,10 +4,13 @@
 //
 // Engine C (DESIGN.md §3): bounded exhaustive enumeration of inputs — every
 // string up to a length over the 13-symbol alphabet of the property, every
-// pair / triple up to smaller lengths, a dictionary of volume-shaped prefixes —
-// each evaluated on a MemFS of type T (build tag avfs_setostype: the generic
-// implementation of vfs_ostype_on.go) and on the reference: the host's
-// path/filepath for Linux, verif/ref/winpath (the toolchain's Windows sources
+// pair / triple up to smaller lengths, a dictionary of volume-shaped prefixes,
+// every string / pair over a second alphabet holding the two ends (and the
+// outer neighbours) of the character ranges the code tests, paths and Join
+// arguments built from whole elements the Windows functions treat specially
+// (see enum.go) — each evaluated on a MemFS of type T (build tag
+// avfs_setostype: the generic implementation of vfs_ostype_on.go) and on the
+// reference: the host's path/filepath for Linux, verif/ref/winpath (the toolchain's Windows sources
 // retargeted by cmd/genwinpath and validated against the toolchain's own test
 // tables before use) for Windows. No sampling, no randomness.
 package main
@@ -151,9 +154,19 @@ func (d *driver) level(phase string, lvl int, bound string, tasks []task) bool {
 // --- phases ---
 
 func (d *driver) singleLevel(l int) bool {
+	return d.singleOver("single", sigma, "", l)
+}
+
+// edgeSingleLevel: the one-argument functions on all strings of l symbols
+// over the range-edge alphabet (see sigmaEdge).
+func (d *driver) edgeSingleLevel(l int) bool {
+	return d.singleOver("edge-single", sigmaEdge, " over the range-edge alphabet", l)
+}
+
+func (d *driver) singleOver(phase string, alpha alphabet, what string, l int) bool {
 	var tasks []task
 
-	n := sigma.count(l)
+	n := alpha.count(l)
 
 	const chunk = 2048
 
@@ -162,19 +175,103 @@ func (d *driver) singleLevel(l int) bool {
 			o, lo, hi := o, lo, min(lo+chunk, n)
 
 			tasks = append(tasks, func(w *worker) {
-				sigma.each(l, lo, hi, func(s string) { w.single(o, s) })
+				alpha.each(l, lo, hi, func(s string) { w.single(o, s) })
 			})
 		}
 	}
 
-	if l == 0 {
+	if l == 0 && phase == "single" {
 		for _, o := range d.os {
 			o := o
 			tasks = append(tasks, func(w *worker) { w.join0(o) })
 		}
 	}
 
-	return d.level("single", l, fmt.Sprintf("all strings of %d symbols, 9 one-argument functions + 2 auxiliary, both OS types", l), tasks)
+	return d.level(phase, l, fmt.Sprintf("all strings of %d symbols%s, 9 one-argument functions + 2 auxiliary, both OS types", l, what), tasks)
+}
+
+// elemPaths: the one-argument functions on paths enumerated as sequences of
+// words (see pathWords): every prefix + w1 s1 w2 ... wk.
+func (d *driver) elemPaths(k int) bool {
+	var paths []string
+
+	eachWordPath(k, func(s string) { paths = append(paths, s) })
+
+	var tasks []task
+
+	const chunk = 1024
+
+	for _, o := range d.os {
+		for _, pre := range pathPrefixes {
+			for lo := 0; lo < len(paths); lo += chunk {
+				o, pre, part := o, pre, paths[lo:min(lo+chunk, len(paths))]
+
+				tasks = append(tasks, func(w *worker) {
+					for _, s := range part {
+						w.single(o, pre+s)
+					}
+				})
+			}
+		}
+	}
+
+	return d.level("elem-paths", k, fmt.Sprintf("%d prefixes x all sequences of %d words over %d words (empty, a, ., .., ?, ??, C:) joined by either slash at every position (%d paths): 9 one-argument functions + 2 auxiliary, both OS types",
+		len(pathPrefixes), k, len(pathWords), len(pathPrefixes)*len(paths)), tasks)
+}
+
+// edgePairs: Join/2 and Rel on all pairs of strings <= 3 symbols over the
+// range-edge alphabet (quick: its 9-symbol part, thorough: all of it).
+func (d *driver) edgePairs() bool {
+	alpha := sigmaEdgePairs
+	if d.tier == "thorough" {
+		alpha = sigmaEdge
+	}
+
+	strs, _ := alpha.upTo(3)
+
+	var tasks []task
+
+	const chunk = 8
+
+	for _, o := range d.os {
+		for lo := 0; lo < len(strs); lo += chunk {
+			o, part := o, strs[lo:min(lo+chunk, len(strs))]
+
+			tasks = append(tasks, func(w *worker) {
+				for _, a := range part {
+					for _, b := range strs {
+						w.pair(o, a, b)
+					}
+				}
+			})
+		}
+	}
+
+	return d.level("edge-pairs", 3, fmt.Sprintf("all pairs of strings <= 3 symbols over the %d range-edge symbols %q (%d strings): Join/2, Rel", len(alpha), []string(alpha), len(strs)), tasks)
+}
+
+// joinElems: Join/3 on all triples of elements made of leading separators, a
+// word and a tail (see joinElements).
+func (d *driver) joinElems() bool {
+	elems := joinElements(d.tier == "thorough")
+
+	var tasks []task
+
+	for _, o := range d.os {
+		for _, a := range elems {
+			o, a := o, a
+
+			tasks = append(tasks, func(w *worker) {
+				for _, b := range elems {
+					for _, c := range elems {
+						w.triple(o, a, b, c)
+					}
+				}
+			})
+		}
+	}
+
+	return d.level("join-elems", 3, fmt.Sprintf("all triples over %d elements (0-2 leading separators + a word of {empty, a, ., .., ?, ??, ???, ??a, C:} + a tail of {nothing, \\, \\a}; thorough tier: more of each): Join/3", len(elems)), tasks)
 }
 
 func (d *driver) dictSingle() bool {
@@ -498,15 +595,20 @@ func (d *driver) iterPhase(maxLen int) bool {
 
 	winDrive = append(winDrive, winNoVol...)
 
+	// range edge (see sigmaEdge): a root on the last lower-case drive, spliced
+	// with the same drive and with the first upper-case one.
+	winEdge := append([]string{}, winNoVol...)
+
 	for _, s := range winBack {
 		winDrive = append(winDrive, `C:`+s, `D:`+s)
+		winEdge = append(winEdge, `z:`+s, `A:`+s)
 	}
 
 	cfgs := []cfg{
 		{d.os[0], []string{"/"}, alphabet{"a", "b", "/"}, [][]string{linRepl}},
 		// drive root: replacements without volume and with the same / another drive;
 		// UNC root: replacements without volume only.
-		{d.os[1], []string{`C:\`, `\\h\s\`}, alphabet{"a", "b", `\`}, [][]string{winDrive, winNoVol}},
+		{d.os[1], []string{`C:\`, `\\h\s\`, `z:\`}, alphabet{"a", "b", `\`}, [][]string{winDrive, winNoVol, winEdge}},
 	}
 
 	nPaths := 0
@@ -531,7 +633,7 @@ func (d *driver) iterPhase(maxLen int) bool {
 	}
 
 	return d.level("iterator", maxLen, fmt.Sprintf(
-		"%d absolute paths: root (/ | C:\\ | \\\\h\\s\\) + all strings <= %d symbols over {a,b,separator}; ReplacePart at every position with all strings <= 3 over {a,separator,.} (Windows: both slashes, and C:/D: prefixed for the drive root)",
+		"%d absolute paths: root (/ | C:\\ | \\\\h\\s\\ | z:\\) + all strings <= %d symbols over {a,b,separator}; ReplacePart at every position with all strings <= 3 over {a,separator,.} (Windows: both slashes, and C:/D: prefixed for the root C:\\, z:/A: prefixed for the root z:\\)",
 		nPaths, maxLen), tasks)
 }
 
@@ -711,8 +813,17 @@ func (d *driver) run() {
 		iterLen = 8
 	}
 
+	elemLen := 4
+	if d.tier == "thorough" {
+		elemLen = 5
+	}
+
 	d.phase("single<=5", upto(0, 5, d.singleLevel))
 	d.phase("dict-single", d.dictSingle)
+	d.phase("edge-single<=5", upto(0, 5, d.edgeSingleLevel))
+	d.phase("elem-paths", upto(1, elemLen, d.elemPaths))
+	d.phase("edge-pairs", d.edgePairs)
+	d.phase("join-elems", d.joinElems)
 	d.phase("iterator", func() bool { return d.iterPhase(iterLen) })
 	d.phase("join3", d.join3)
 	d.phase("pairs<=3", upto(0, 3, d.pairLevel))
@@ -727,6 +838,7 @@ func (d *driver) run() {
 	}
 
 	d.phase("single=6", func() bool { return d.singleLevel(6) })
+	d.phase("edge-single=6", func() bool { return d.edgeSingleLevel(6) })
 	d.phase("abs=6", func() bool { return d.absPhase(6, false, "") })
 	d.phase("match=5", func() bool { return d.matchLevel(5) })
 	d.phase("pairs=4", func() bool { return d.pairLevel(4) })
@@ -797,6 +909,7 @@ func (d *driver) finish() int {
 
 	var (
 		resetConservative, refDiverges uint64
+		joinSelf, joinModelOff         uint64
 		divergeEx                      [][2]string
 	)
 
@@ -805,6 +918,8 @@ func (d *driver) finish() int {
 		agg.merge(w.agg)
 		resetConservative += w.resetConservative
 		refDiverges += w.refDiverges
+		joinSelf += w.joinSelf
+		joinModelOff += w.joinModelOff
 		divergeEx = append(divergeEx, w.divergeEx...)
 	}
 
@@ -902,7 +1017,8 @@ func (d *driver) finish() int {
 
 	assumptions := []string{
 		"Abs for T=Windows not decided (Go's implementation asks the Win32 API)",
-		"inputs longer than the bound / coverage-guided fuzzing clause not covered: the claim is exhaustive within the stated symbol-length bounds over the 13-symbol alphabet, plus the volume-prefix dictionary",
+		"inputs longer than the bound / coverage-guided fuzzing clause not covered: the claim is exhaustive within the stated bounds over the 13-symbol alphabet, the volume-prefix dictionary, the 12-symbol range-edge alphabet (both ends of the two drive-letter ranges and the characters just outside them; no other character range is tested by the lexical layer) and the word-built paths and Join elements (coverage.range_edge_alphabet, path_words, path_prefixes, join_elements)",
+		"Join: a disagreement with the reference is charged to a known volume-parsing finding only when the two sides parse a different volume in the concatenation the reference's Join hands to Clean — the only string in which Join looks for a volume —, not when an element or the result merely looks like a device path; and every disagreement is also judged against the implementation's own Clean of that concatenation (only where the reference's Clean of it is the reference's Join: coverage.join_decomposition): a Join that is not its own Clean of the concatenation is reported whatever the volumes",
 		"Linux reference = path/filepath of the host toolchain " + runtime.Version() + " (host is POSIX); Windows reference = verif/ref/winpath, generated from the same toolchain's Windows sources by cmd/genwinpath and accepted only after passing the toolchain's own Windows test tables in this process",
 		"Abs for T=Linux is compared with filepath.Abs after moving the process and the MemFS to the same working directory (3 directories); PWD is unset",
 		"Rel on Windows: pairs on which the toolchain's own Rel does not terminate (decided from its preamble, e.g. Rel(`\\\\h\\s`, `\\\\h\\s\\`)) have no expected value and are skipped; they are counted in coverage.rel_reference_diverges",
@@ -912,19 +1028,28 @@ func (d *driver) finish() int {
 	}
 
 	cov := map[string]any{
-		"evaluations":                          evals,
-		"distinct_nontrivial":                  distinct,
-		"distinct_outcome_classes":             distinctAll,
-		"rule":                                 "every (OS type, function, input tuple) of the bounded spaces below is evaluated once on a MemFS of that type and on the reference; an evaluation's outcome class is taken from the REFERENCE result: for string results (relation to the first input: identity | proper prefix | proper suffix | shorter | same length | longer) x (first byte: empty | separator | dot | other), for booleans true|false, for errors error|ErrBadPattern, for the iterator the number of parts / the reset flag. distinct_nontrivial = number of distinct (OS type, function, outcome class) triples observed whose class is not 'identity', 'false' or 'zero parts'",
-		"exhaustive":                           exhaustive,
-		"bound":                                bound,
-		"bounds_completed":                     done,
-		"levels":                               d.levels,
-		"phases_skipped_by_budget":             d.skipped,
-		"per_function":                         perFn,
-		"outcome_classes":                      classes,
-		"samples":                              d.samples(),
-		"alphabet":                             []string(sigma),
+		"evaluations":                     evals,
+		"distinct_nontrivial":             distinct,
+		"distinct_outcome_classes":        distinctAll,
+		"rule":                            "every (OS type, function, input tuple) of the bounded spaces below is evaluated once on a MemFS of that type and on the reference; an evaluation's outcome class is taken from the REFERENCE result: for string results (relation to the first input: identity | proper prefix | proper suffix | shorter | same length | longer) x (first byte: empty | separator | dot | other), for booleans true|false, for errors error|ErrBadPattern, for the iterator the number of parts / the reset flag. distinct_nontrivial = number of distinct (OS type, function, outcome class) triples observed whose class is not 'identity', 'false' or 'zero parts'",
+		"exhaustive":                      exhaustive,
+		"bound":                           bound,
+		"bounds_completed":                done,
+		"levels":                          d.levels,
+		"phases_skipped_by_budget":        d.skipped,
+		"per_function":                    perFn,
+		"outcome_classes":                 classes,
+		"samples":                         d.samples(),
+		"alphabet":                        []string(sigma),
+		"range_edge_alphabet":             []string(sigmaEdge),
+		"range_edge_pairs_alphabet_quick": []string(sigmaEdgePairs),
+		"path_words":                      []string(pathWords),
+		"path_prefixes":                   pathPrefixes,
+		"join_elements":                   joinElements(d.tier == "thorough"),
+		"join_decomposition": map[string]any{
+			"judged": joinSelf, "model_of_concatenation_off": joinModelOff, "check": joinCleanCheck,
+			"rule": "for every Join (Join/1, /2, /3 of every phase) whose result differs from the reference's: Join(elems) of the implementation == Clean(c) of the implementation, c = the concatenation built by the rules of the toolchain's join; judged only where Clean(c) of the reference == Join(elems) of the reference (model_of_concatenation_off counts the others, expected 0)",
+		},
 		"volume_prefix_dictionary":             volumePrefixes,
 		"violating_instances":                  instances,
 		"violating_instances_unknown":          unknownInstances,
@@ -962,7 +1087,7 @@ func (d *driver) finish() int {
 func (d *driver) boundString(done map[string]int) string {
 	var parts []string
 
-	for _, p := range []string{"single", "dict-single", "abs", "abs-dict", "pairs", "dict-pairs", "join3", "match", "iterator"} {
+	for _, p := range []string{"single", "dict-single", "edge-single", "elem-paths", "abs", "abs-dict", "pairs", "dict-pairs", "edge-pairs", "join3", "join-elems", "match", "iterator"} {
 		if l, ok := done[p]; ok && l >= 0 {
 			parts = append(parts, fmt.Sprintf("%s<=%d", p, l))
 		} else if ok {
